@@ -15,8 +15,18 @@
 
 #include <cstring>
 #include <string>
+#include <sys/mman.h>
 #include <string_view>
 #include <type_traits>
+
+// While a call under test runs, the page holding the pending event header (shared with the parent) is read-only:
+// a wild write of a call that runs into undefined behaviour then ends the child instead of garbling the record.
+inline void guard_pending(bool on)
+{
+    if (vhc::shared() != nullptr) {
+        mprotect(vhc::shared(), sizeof(vhc::Shared), on ? PROT_READ : (PROT_READ | PROT_WRITE));
+    }
+}
 
 #ifndef VH_STD
     #ifdef FMT_CHECKS
@@ -39,6 +49,7 @@ namespace etl {
 template <typename Assertion> [[noreturn]] auto assert_handler(Assertion const& msg) -> void
 {
     // leave the fact in the pending event header, then die: the parent records it
+    guard_pending(false);
     if (!g_header_text.empty() && vh::json::accept(g_header_text)) {
         vh::json h  = vh::json::parse(g_header_text);
         h["assert"] = msg.line;
@@ -223,7 +234,9 @@ template <std::size_t Cap, class... Ts> void entry_fb(json const& c, std::string
     etl::inplace_string<Cap> s;
     auto it = etl::back_inserter(s);
     etl::detail::fmt_buffer<char> fb {it};
+    guard_pending(true);
     (void)etl::format_to(etl::back_inserter(fb), etl::string_view {f.data(), f.size()}, xs...);
+    guard_pending(false);
     json out = string_to_codes(s.data(), s.size());
     check_header(e);
     e["out"] = out;
@@ -245,7 +258,10 @@ template <std::size_t Cap, class... Ts> void entry_direct(json const& c, std::st
     e["out"] = string_to_codes(o.s.data(), o.s.size());
     #else
     etl::inplace_string<Cap> s;
+    guard_pending(true);
     (void)etl::format_to(etl::back_inserter(s), etl::string_view {f.data(), f.size()}, xs...);
+    guard_pending(false);
+    check_header(e);
     e["out"] = string_to_codes(s.data(), s.size());
     e["ok"]  = true;
     #endif
@@ -261,7 +277,9 @@ template <std::size_t Cap, class... Ts> void entry_vfmt(json const& c, std::stri
     g_pending = &e;
     vhc::set_pending(e);
     etl::inplace_string<Cap> s;
+    guard_pending(true);
     (void)etl::vformat_to(etl::back_inserter(s), etl::string_view {f.data(), f.size()}, etl::make_format_args(xs...));
+    guard_pending(false);
     e["out"]  = string_to_codes(s.data(), s.size());
     e["ok"]   = true;
     g_pending = nullptr;
@@ -289,7 +307,10 @@ template <class... Ts> void entry_n(json const& c, std::string const& f, Ts cons
         e["size"]    = len;
         e["written"] = wr;
 #else
+        guard_pending(true);
         auto const r = etl::format_to_n(buf, (etl::ptrdiff_t)n, etl::string_view {f.data(), f.size()}, xs...);
+        guard_pending(false);
+        check_header(e);
         long wr      = (long)(r.out - buf);
         e["size"]    = (long)r.size;
         e["written"] = wr;
